@@ -267,14 +267,18 @@ def run(tier, rep):
     for r in rts[:3]:      # ratio-major: consecutive configurations ask for the same step ratio
         for rec in shuffled:
             check_config(rec, rep, stats, [r], False, shared=shared)
-    states, trans, per = vlib.merge_tlc([res])
+    sres, sstats = [], {}
+    if tier != 'quick':
+        import suite_traces
+        sres, sstats = suite_traces.check('cache', rep)      # every rule the repository's own tests request: dispatch conforms to Rules.tla
+    states, trans, per = vlib.merge_tlc([res] + sres)
     sample = rec_small(recs[len(recs) // 3])
     coverage = dict(states=states, transitions=trans, traces_validated_against_impl=stats['dispatch'],
                     samples=[sample, dict(ratios=rts)], tlc=per, exhaustive=True,
                     evaluations=stats['dispatch'] + stats['weights'] + stats['end_to_end'],
                     distinct_nontrivial=len({(r['m'], r['n'], r['o']) for r in recs if r['nterms'] > 1}),
                     rule='one case per (method, n, order) emitted by TLC; non-trivial = rule with more than one weight',
-                    **stats)
+                    **stats, **sstats)
     assumptions = ['numpy/scipy arithmetic as executed', 'tolerances: moment equations min(8*eps*cond(M)*sum|w||M|, 64*eps*||M||*||w||) (backward-stable SVD; measured worst 1.6*eps*||M||*||w||), the backward bound alone once cond*eps > 1e-4; 64*eps*cond for end-to-end',
                    'step ratios: fixed grid + %d seeded random reals in (1.05,10]' % (len(rts) - 9),
                    'systems with cond(M) > 1e14 (where numpy.linalg.pinv itself starts truncating) are skipped and counted; end-to-end checks skip cond*eps > 1e-4']
